@@ -193,6 +193,11 @@ class IndexedCache:
     flat_cache: HashedIterable = field(default_factory=HashedIterable, init=False)
     enter_count: int = field(default=0, init=False)
     search_count: int = field(default=0, init=False)
+    holds_true_outputs_only: bool = field(default=False, init=False)
+    """
+    Whether some of what the cache covers was produced while false outputs were not asked for (and is thus not complete
+    for an evaluation that asks for them).
+    """
 
     def __post_init__(self):
         self.keys = self._keys
@@ -327,6 +332,7 @@ class IndexedCache:
         self.cache.clear()
         self.seen_set.clear()
         self.flat_cache.clear()
+        self.holds_true_outputs_only = False
 
 
 def yield_class_values_from_cache(cache: Dict[Type, IndexedCache], clazz: Type,
